@@ -275,7 +275,10 @@ func stateContextClosed(s *Scanner, c byte) *jerr.JApiError {
 
 func stateContextOpenedOnNewline(s *Scanner, c byte) *jerr.JApiError {
 	switch c {
-	case caseWhitespace(c):
+	case caseWhitespace(c), EOF:
+		// The end of the file is as good as the end of the line: the context may
+		// be continued and closed by the including file (an unclosed context of
+		// the root file is reported by the core).
 		return nil
 	case caseNewLine(c):
 		s.step = stateExpectKeyword
